@@ -136,7 +136,7 @@ PROPS = {
     ),
     'C07': dict(
         title='Filter evaluation follows the Haystack filter semantics',
-        verus=[],
+        verus=[('u_resolver', [r'^Dict::resolve_for$', r'^Path::', r'^lemma_walk_null_stays$', r'^Value::is_null$', r'^Grid::filter_all$'])],
         kani=[dict(harness='k_cmp_eq', klass='complete', schema='raw', family='filter-cmp:eq', target='filter::nodes::cmp_values(Eq)', timeout=400),
               dict(harness='k_cmp_ne', klass='complete', schema='raw', family='filter-cmp:ne', target='filter::nodes::cmp_values(NotEq)', timeout=400),
               dict(harness='k_cmp_lt', klass='complete', schema='raw', family='filter-cmp:lt', target='filter::nodes::cmp_values(LessThan)', timeout=400),
@@ -148,10 +148,13 @@ PROPS = {
         design_ref='DESIGN.md section 4, C07',
         level_text=('Proof (Kani/CBMC, complete over the 7 heap-free kinds x all non-NaN f64, one harness per operator) of the comparison '
                     'kernel cmp_values with the real PartialEq/PartialOrd of Value: a comparison holds only if the tag has a value; '
-                    '< <= > >= hold only for a value of the literal\'s kind ordered as stated; == iff equal; != iff a value that is not equal.'),
-        not_decided=('and/or/parens evaluation and path resolution (iterator adapters over the node tree, resolver trait objects); '
+                    '< <= > >= hold only for a value of the literal\'s kind ordered as stated; == iff equal; != iff a value that is not equal. '
+                    'Proof (Verus, all dicts and paths) of path resolution by the default resolver: a->b->c looks each segment up in the dict the '
+                    'previous segments resolve to, and a missing tag, a Null or a non-dict value anywhere along the path gives Null; and of '
+                    'Grid::filter_all: it returns exactly the rows for which the filter holds, in order.'),
+        not_decided=('and/or/parens evaluation (Iterator::any/all with closures over the node tree); caller-supplied resolvers and Ref chains; '
                      '^symbol and relationship terms (namespace, C13); string/ref/date literals and list tags in the kernel (heap values '
-                     'make CBMC runs unbounded in time: a two-element list harness did not finish in 20 min); grid filtering order; '
+                     'make CBMC runs unbounded in time: a two-element list harness did not finish in 20 min); Grid::filter (first match: Iterator::find); '
                      'precedence is a parser matter (C08). NaN literals are excluded (not expressible in filter text; derive(PartialOrd) '
                      'orders NaN differently on the repository toolchain and on Kani\'s nightly).'),
         technique='contract-based deductive verification: Kani complete symbolic harnesses on the real comparison kernel',
